@@ -102,6 +102,13 @@ ArgsLoop:
 				if knownPath != path.Join(relpath, pattern) && !(relpath == "." && knownPath == pattern) {
 					continue
 				}
+				// The same text read from the attributes file of
+				// another directory is another pattern: "sub/*.bin"
+				// up there matches the files of sub only, "*.bin"
+				// down here those of every directory below it too.
+				if path.Dir(filepath.ToSlash(known.Source.Path)) != filepath.ToSlash(relpath) {
+					continue
+				}
 				// A line that mentions the pattern without giving
 				// it the LFS filter ("lockable" alone, "-filter")
 				// does not make it a tracked pattern.
